@@ -21,9 +21,20 @@ func (r *Runner) replayCore(l *Line) lineResult {
 	for i := range l.Hist {
 		w.stepI = i
 		w.coreStep(&l.Hist[i], nil)
+		if w.encRejected {
+			break
+		}
 	}
-	w.stepI = len(l.Hist)
-	w.coreStep(&l.Step, &l.Expect)
+	if !w.encRejected {
+		w.stepI = len(l.Hist)
+		w.coreStep(&l.Step, &l.Expect)
+	}
+	if w.encRejected {
+		res.skipped = "encoding not accepted by Verify"
+		res.extra = map[string]int{"enc_rejected": 1}
+	} else if l.Step.Enc != nil && l.Step.Enc.Kind != "canon" {
+		res.extra = map[string]int{"enc_accepted." + l.Step.Enc.Kind: 1}
+	}
 	res.fails = w.fails
 	res.calls = w.mon.ncalls
 	st := &l.Step
@@ -40,6 +51,9 @@ func (w *World) coreStep(st *Step, exp *Expect) {
 			w.ctx["C05"] = true
 		}
 		w.applyMod(st)
+		if w.encRejected {
+			return
+		}
 		w.checkRoots(st.Post)
 	case "undo":
 		w.applyUndo(st)
